@@ -203,6 +203,8 @@ func (r *Run) verifAPI(fn *ssa.Function, args []Value) (Value, bool) {
 		ev.terms = append([]*Term{}, r.regionBytes(s.P, s.Len)...)
 		r.events = append(r.events, ev)
 		return Tuple{}, true
+	case "verifGCChurn", "verifKeepAlive":
+		return Tuple{}, true
 	case "verifNoValidate":
 		r.noValidate = true
 		return Tuple{}, true
